@@ -388,10 +388,10 @@ func (vc *VC) oblige(st *State, fr *Frame, kind, tag string, goal Term, src stri
 	if goal.S == "true" || st.reach.S == "false" {
 		o.Trivial = true
 	}
-	if strings.HasPrefix(kind, "safe.") && vc.top != nil && vc.top.contract != nil && vc.top.contract.opt("nosafety") {
+	if strings.HasPrefix(kind, "safe.") && kind != "safe.overflow" && vc.top != nil && vc.top.contract != nil && vc.top.contract.opt("nosafety") {
 		// "option nosafety": the memory-safety conditions of this function rest on a structural invariant of its
 		// data that is not under contract; they are assumed (recorded once) and only the functional clauses are decided
-		vc.trusted[fname+": memory-safety conditions (index, nil, type assertion) assumed, not proved (option nosafety)"] = true
+		vc.trusted[fname+": memory-safety conditions (index, nil, type assertion; not arithmetic overflow) assumed, not proved (option nosafety)"] = true
 		vc.assume(st, goal)
 		return o
 	}
